@@ -414,6 +414,18 @@ func Scenario(prop string, c Cfg, oracle func(in *Inst, r *vs.Result) []string) 
 	}
 }
 
+// LibBlocked lists the goroutines started by the library (names carry the "lib:" prefix given by the
+// transformer) that are still pending.
+func LibBlocked(r *vs.Result) []string {
+	var lib []vs.BlockedG
+	for _, b := range r.Blocked {
+		if strings.HasPrefix(b.Name, "lib:") {
+			lib = append(lib, b)
+		}
+	}
+	return BlockedNames(&vs.Result{Blocked: lib})
+}
+
 func BlockedNames(r *vs.Result) []string {
 	m := map[string]int{}
 	for _, b := range r.Blocked {
